@@ -1785,13 +1785,18 @@ func genEngineCases(seed int64, n int, mode string) []Case {
 			note += fmt.Sprintf(" chain%d", len(texts))
 			chain = texts
 		}
-		cases = append(cases, Case{
+		cs := Case{
 			ID:      fmt.Sprintf("gen/%d/%d", seed, len(cases)),
 			Patches: patches,
 			Src:     src,
 			Note:    note,
 			Chain:   chain,
-		})
+		}
+		if len(patches) == 1 && patches[0] == patch {
+			// the single change is exactly the generated one: its sides are known as text
+			cs.MinusText, cs.PlusText, cs.FragKind = p.minus, p.plus, p.kind.String()
+		}
+		cases = append(cases, cs)
 	}
 	return cases
 }
